@@ -111,3 +111,6 @@ def rules(ctx):
     from . import C01, C02, C03, C06, C09
     for mod in (C01, C02, C03, C06, C09):
         mod.rules(ctx)
+    ctx.rule('R08.5', "copies and arithmetic results keep the bookkeeping: copy() goes through the model's own class", floor=1)
+    from .C19 import copy_through_class
+    copy_through_class(ctx, 'R08.5')
